@@ -2,9 +2,11 @@ use crate::runner::Prop;
 
 pub mod c01;
 pub mod c03;
+pub mod c13;
 pub mod c24;
 pub mod c24_table;
 pub mod hist;
+pub mod lower;
 
 pub fn all() -> Vec<Box<dyn Prop>> {
     vec![Box::new(c01::C01 { which: 1 }), Box::new(c01::C01 { which: 2 }), Box::new(c03::C03),
@@ -16,6 +18,10 @@ pub fn all() -> Vec<Box<dyn Prop>> {
         Box::new(hist::Hist { id: "C11" }),
         Box::new(hist::Hist { id: "C29" }),
         Box::new(c24::C24),
+        Box::new(c13::C13),
+        Box::new(lower::Lower { id: "C15" }),
+        Box::new(lower::Lower { id: "C21" }),
+        Box::new(lower::Lower { id: "C22" }),
         Box::new(hist::Hist { id: "C12" }),
         Box::new(hist::Hist { id: "C14" }),
         Box::new(hist::Hist { id: "C30" }),
